@@ -183,6 +183,23 @@ def extra_checks(rep, pid, ledger, known):
     except Unsupported as e:
         rep.unsupported.append(f"vmdk:RE_EXTENT_DESCRIPTOR: unsupported({e})")
         impl = None
+    # capture reading: every quantifier is greedy (the quoted file name is the longest text between quotes that lets the rest of the line
+    # match; a lazy quantifier accepts the same lines but cuts a name such as  my "old" disk.vmdk  at its first inner quote)
+    try:
+        lazy = R.lazy_quantifiers(vm.RE_EXTENT_DESCRIPTOR.pattern, vm.RE_EXTENT_DESCRIPTOR.flags)
+        name = "vmdk:RE_EXTENT_DESCRIPTOR/capture.all_quantifiers_greedy"
+        _ob(rep, name, not lazy)
+        rep.obligations[name]["props"] = ["C10", "C14"]
+        if lazy:
+            w = 'RW 16 FLAT "my "old" disk-f001.vmdk" 0'
+            mt = vm.RE_EXTENT_DESCRIPTOR.search(w)
+            got = mt.groupdict().get("filename") if mt else None
+            bad = got != '"my "old" disk-f001.vmdk"'
+            p = driver.write_replay(pid, name, {"property": pid, "obligation": name, "lazy_quantifiers": lazy, "witness_line": w, "captured_filename": got,
+                                                "verifier_output": f"{len(lazy)} lazy quantifier(s) in RE_EXTENT_DESCRIPTOR"})
+            rep.violations.append((p, f"RE_EXTENT_DESCRIPTOR has lazy quantifiers {lazy}; line {w!r} captures filename {got!r}", not bad))
+    except Exception as e:  # noqa: BLE001
+        rep.unsupported.append(f"vmdk:RE_EXTENT_DESCRIPTOR/capture: unsupported({type(e).__name__}: {e})")
     if impl is not None:
         for t in SPEC_TYPES:
             r, w = R.inclusion(spec_line(t), impl)
